@@ -162,6 +162,10 @@ def _tag(spec, diffs, mods=None):
     return diffs
 
 
+def _strip(a):
+    return {k: v for k, v in a.items() if k != "pn"}
+
+
 def run_dump(spec, mods):
     w, exc = Lg.rewrite(spec, mods, prepare=_prepare(spec))
     if exc is not None:
